@@ -186,4 +186,22 @@ example : nf_furcation_nodes (Sub.rangeI 5) exP = some [true, true, false, false
           nf_subset_radial_distance nfSqR (Sub.rangeI 5) exP [1, 3, 3, 3, 3] exXYZR [false, false, true, true, true] = some [50, 100, 4] := by
   decide +kernel
 
+/-- **`BranchFeatures.calc_angle` as translated**: entry (i, j) = `acos (clip (v_i · v_j / (‖v_i‖·‖v_j‖ + eps), −1, 1))` where `v_b` is the vector
+from the FIRST node of branch `b` to its LAST node (`br[-1].xyz() − br[0].xyz()`), `eps` is added to the divisor (not to the norms) and the
+product of the norms is the 1×1 matrix product the source forms; a zero divisor raises (numpy would give inf / nan) -/
+theorem generated_calc_angle {K : Type} [Inhabited K] [Add K] [Sub K] [Mul K] [OfNat K 0] [OfNat K 1] [LT K] [DecidableLT K] [LE K] [DecidableLE K]
+    (F : Py.Fld K) (norm : List K → K) (acos : K → K) (axyz : List (List K)) (d : Nat) (brs : List (List Int)) (eps : K)
+    (hg : ∀ b ∈ brs, GoodBr axyz d b)
+    (hne : ∀ bi ∈ brs, ∀ bj ∈ brs, angDen norm axyz eps bi bj < 0 ∨ 0 < angDen norm axyz eps bi bj) :
+    nf_calc_angle F norm acos axyz brs eps
+      = some (brs.map fun bi => brs.map fun bj =>
+          acos (clip1 (F.div (RefineNf2.dotK (bvec axyz bi) (bvec axyz bj)) (angDen norm axyz eps bi bj)))) :=
+  calc_angle_refines F norm acos axyz d brs eps hg hne
+
+/-- non-vacuity (kernel-evaluated; `norm` = Σv², `acos` = id, eps = 1): branches `[0,1]` (vector (3,4,0)) and `[1,3,4]` (vector (−3,−4,2)):
+the off-diagonal quotient −25 / (25·29 + 1) stays, the diagonal ones 25 / 626 and 29 / 842 too; with `eps = 0` and a zero vector it raises -/
+example : nf_calc_angle Py.ratFld nfSqR id exXYZR [[0, 1], [1, 3, 4]] 1
+            = some [[25 / 626, -25 / 726], [-25 / 726, 29 / 842]] ∧
+          nf_calc_angle Py.ratFld nfSqR id exXYZR [[0, 1], [2, 2]] 0 = none := by decide +kernel
+
 end C10
